@@ -1203,7 +1203,9 @@ def sqli_inputs(tier, salt, fp_frac=None):
     items += list(vgen.literal_bodies(6 if big else 4))
     items += keyword_frames(big)
     items += list(vgen.window_frames())
-    items += list(vgen.inflate(vgen.INFLATE_SQL_SEEDS))              # depth: every chunk of the seeds repeated 17 / 33 / 65 / 130 times
+    # depth: every chunk of the seeds repeated 17 / 33 (t: also 65) times; bounded in length because the specification is
+    # evaluated on each of them step by step (the property checks C12 / C14 / C18 carry the longer ones)
+    items += [x for x in vgen.inflate(vgen.INFLATE_SQL_SEEDS, counts=(17, 33, 65) if big else (17, 33)) if len(x) <= (320 if big else 170)]
     keyword_frames(big)                       # (fills _KW_CACHE)
     items += list(vgen.fingerprint_inputs(_KW_CACHE["fp"], r, fp_frac if fp_frac is not None else (1.0 if big else 0.2)))
     items += vgen.long_sql_inputs(big)
